@@ -30,6 +30,8 @@ ASSUMPTIONS = ["variable bounds within int16, |coefficient * bound| < 2^31 (far 
                "mode P (>=2 wide columns) decides individual points only; emptiness is not decided there",
                "scipy.optimize.milp is a point generator only; every point is re-verified in Python ints",
                "rows flagged by reducable_rows_and_columns are required to hold given the forced columns, not on the whole box",
+               "reducable_rows_and_columns burning more than 20 s of process CPU time in one call (normally ~1 ms) is "
+               "reported as non-termination of its fix-point loop",
                "puan_rspy 0.3.0 binary is part of the system under test (model part)"]
 
 
